@@ -218,6 +218,12 @@ V("v_parse_frame", "userdata", "parse_frame (the per-frame chunk dispatch) for E
 V("v_read_aseprite", "header", "read_aseprite: Ok => the 128-byte header is present with magic 0xA5E0 and the sprite reports frames / width / height / pixel format (incl. transparent index) exactly as stored at offsets 6/8/10/12/28, one frame-time slot per frame; a pixel ratio other than 1:1 (both components non-zero) and colour depths other than 8/16/32 are refused; every parse_frame call has a slot for its frame",
   ["parse::read_aseprite"], fn="read_aseprite", witness="x_roundtrip_structure")
 V("v_parse_pixel_format", "header", "parse_pixel_format: Ok iff depth in {8,16,32}; indexed keeps the transparent index", ["parse::parse_pixel_format"], fn="parse_pixel_format")
+V("v_indexed_as_rgba", "pixels", "Indexed::as_rgba for ALL indices / palettes: None iff the index is absent; else the palette colour with alpha 0 iff the index is the transparent index and the layer is not a background layer",
+  ["pixel::Indexed::as_rgba", "palette::ColorPaletteEntry::red", "palette::ColorPaletteEntry::green", "palette::ColorPaletteEntry::blue", "palette::ColorPaletteEntry::alpha"], fn="as_rgba", witness="x_frames_vs_spec")
+V("v_gray_into_rgba", "pixels", "Grayscale (v,a) -> (v,v,v,a)", ["pixel::Grayscale::into_rgba"], fn="into_rgba", witness="x_frames_vs_spec")
+V("v_rawpixels_validate", "pixels", "RawPixels::validate: indexed data is accepted iff a palette exists, the file is indexed and EVERY pixel index is a palette entry; the transparent index and background flag are captured; RGBA / grayscale data pass through",
+  ["pixel::RawPixels::validate"], fn="RawPixels::validate", witness="x_indexed_needs_palette")
+V("v_is_background", "visible", "LayerData::is_background <=> flag bit 0x8 (not the combined BACKGROUND_LAYER mask)", ["layer::LayerData::is_background"], fn="is_background", witness="x_frames_vs_spec")
 V("v_tag_set_user_data", "userdata", "Tag::set_user_data stores the record", ["tags::Tag::set_user_data"], fn="set_user_data")
 UD_V = ["v_parse_frame", "v_cel_mut", "v_tag_set_user_data"] + ["v_ud_" + f for f in ("add_layer", "add_slice", "add_tags", "add_cel", "set_tag_user_data", "add_user_data")]
 
@@ -314,9 +320,9 @@ prop("C03", "proof", BLEND_LEAVES + BLEND_WRAPPERS + ["k_parse_blend_mode", "x_m
 prop("C04", "proof", VDEC_IDS + ["v_compute_parents", "v_from_vec", "k_check_chunk_bytes", "k_scale_6bit", "k_parse_chunk_type", "k_parse_pixel_format"] + LAYER_DEC + TAGS_DEC + SLICE_DEC + PAL_DEC + EXT_DEC
      + TS_DEC + CEL_DEC + UD_DEC + CP_DEC + READER + ["k_tilemap_bits", "k_tile_parse", "k_cels_table", "v_read_aseprite", "v_parse_frame", "v_ud_set_tag_user_data", "v_ud_add_user_data", "v_ud_add_cel", "v_cel_mut", "x_decoder_contracts", "x_total_load"],
      "Totality contracts: every Kani decoder harness also discharges the automatic no-panic / no-overflow / in-bounds checks for all contents of its payload size; Verus proves compute_parents and that from_vec establishes its precondition. Whole-load totality (glue, zlib, stack depth, allocation) is fault enumeration in an isolated child process.", level_note_extra="fault enumeration for the composition")
-prop("C05", "proof", ["v_validate_indexed", "v_dec_tilemap", "v_dec_tileset", "v_write_raw_cel", "v_write_tilemap_cel", "v_tile_slice", "v_tilemap_tile", "v_tilemap_lookup", "v_tile_offsets", "v_is_visible", "v_pixels_per_tile", "k_validate_indexed", "k_indexed_as_rgba", "k_tileset_head_34", "k_tileset_head_44", "x_usable_after_load"],
+prop("C05", "proof", ["v_validate_indexed", "v_rawpixels_validate", "v_indexed_as_rgba", "v_dec_tilemap", "v_dec_tileset", "v_write_raw_cel", "v_write_tilemap_cel", "v_tile_slice", "v_tilemap_tile", "v_tilemap_lookup", "v_tile_offsets", "v_is_visible", "v_pixels_per_tile", "k_validate_indexed", "k_indexed_as_rgba", "k_tileset_head_34", "k_tileset_head_44", "x_usable_after_load"],
      "Assume/guarantee: the renderers are proved panic-free under explicit preconditions R-pre (Verus, unbounded); that validation establishes R-pre for everything that loads is checked by fault enumeration: every loadable corrupted file is driven through every accessor.")
-prop("C06", "proof", ["v_dec_cel", "v_dec_cel_content", "v_dec_cel_common", "v_dec_image_size", "v_pixel_count", "v_cel_is_empty", "v_cel_frame", "v_cel_layer", "v_celsdata_cel"] + PIX + ["k_cel_chunk_15", "k_cel_chunk_17", "k_cel_chunk_18", "k_cel_raw_rgba_28", "k_cel_raw_gray_24", "k_cel_raw_indexed_23", "v_write_raw_cel", "x_frames_vs_spec", "x_roundtrip_structure", "x_neutral_encodings"],
+prop("C06", "proof", ["v_indexed_as_rgba", "v_gray_into_rgba", "v_is_background", "v_rawpixels_validate", "v_dec_cel", "v_dec_cel_content", "v_dec_cel_common", "v_dec_image_size", "v_pixel_count", "v_cel_is_empty", "v_cel_frame", "v_cel_layer", "v_celsdata_cel"] + PIX + ["k_cel_chunk_15", "k_cel_chunk_17", "k_cel_chunk_18", "k_cel_raw_rgba_28", "k_cel_raw_gray_24", "k_cel_raw_indexed_23", "v_write_raw_cel", "x_frames_vs_spec", "x_roundtrip_structure", "x_neutral_encodings"],
      "Pixel conversions proved for all values; cel header / raw payload decode on fixed sizes; placement + alpha scaling is the Verus rasteriser contract; zlib storage, linked cels and the transparent-index rule end-to-end are bounded-exec against the composition spec.")
 prop("C07", "exploration", ["v_read_aseprite", "v_parse_frame", "k_parse_chunk_type", "k_layer_chunk_24", "k_tileset_head_44", "x_neutral_encodings", "x_cel_order_irrelevant"],
      "Mostly glue and zlib: bounded exploration over seeded models x ~30 encoding choices; contract part: ignorable chunk codes map to the three ignorable kinds (all u16), trailing payload bytes do not change a decoder's result (layer / tileset shapes with slack bytes).")
@@ -326,7 +332,7 @@ prop("C09", "proof", ["v_compute_parents", "v_from_vec", "v_is_visible", "x_fore
      "compute_parents is proved by Verus on the real text for ALL layer sequences (any length, any depth) whose first level is 0 - the forests of the property are a subset; from_vec establishes that precondition; Layer::is_visible is proved equal to 'own flag and all ancestors' flags' for every table satisfying the parent contract. Layer::parent and the compositing gate are exhaustively executed for every forest of up to 6 (quick) / 8 (thorough) layers and every flag assignment.")
 prop("C10", "proof", UD_V + ["v_dec_userdata"] + UD_DEC + ["x_decoder_contracts", "x_userdata_exhaustive", "x_roundtrip_structure"],
      "The attachment rule is a Verus contract on the REAL code, extracted each run, for unbounded tables and chunk sequences: ParseInfo::add_user_data attaches a record to the entity named by the current context and changes nothing else (add_layer / add_cel / add_tags / add_slice / set_tag_user_data / CelsData::cel_mut likewise), and parse_frame - the chunk dispatch - updates that context per chunk kind exactly by the rule (fold over the chunk sequence; ignorable chunks and the new palette leave it untouched, tags only count in frame 0, a legacy palette selects the sprite). Assumed in that unit: the decoders' results (their own contracts are the dec_* units) and the chunk framing. The same rule is additionally executed for all admissible chunk sequences up to length 5 / 6 through the public API; the user-data chunk decoder is a Verus (unbounded) and Kani (fixed shapes) contract.")
-prop("C11", "proof", ["v_dec_palette", "v_palette_color", "v_validate_indexed", "v_scale_6bit"] + PAL_DEC + ["k_validate_indexed", "x_decoder_contracts", "x_palette_precedence", "x_indexed_needs_palette"],
+prop("C11", "proof", ["v_dec_palette", "v_palette_color", "v_validate_indexed", "v_rawpixels_validate", "v_scale_6bit"] + PAL_DEC + ["k_validate_indexed", "x_decoder_contracts", "x_palette_precedence", "x_indexed_needs_palette"],
      "6-bit scaling proved for all u8; palette chunk decoders against the layout on fixed sizes; pixel-index validation on a bounded shape; precedence between chunks and the load failure for incomplete palettes are bounded-exec.")
 prop("C13", "exploration", READER + ["k_check_chunk_bytes", "v_check_chunk_bytes", "v_dec_layer", "v_dec_tags", "v_dec_cel", "x_truncation"],
      "Reader primitives return an error value whenever fewer bytes remain than the field needs (contract, every position of a fixed-size cursor); that declared counts drive the reads is glue: every cut offset of generated and corpus files is executed.")
